@@ -161,6 +161,49 @@ end Godi.Container
 
 namespace Godi.Container
 
+theorem mem_eraseIdx_or_getElem? {α} : ∀ (l : List α) (k : Nat) (x : α), x ∈ l → x ∈ l.eraseIdx k ∨ l[k]? = some x := by
+  intro l
+  induction l with
+  | nil => intro k x h; cases h
+  | cons a rest ih =>
+    intro k x h
+    cases k with
+    | zero =>
+      rcases List.mem_cons.1 h with rfl | h
+      · exact Or.inr rfl
+      · exact Or.inl h
+    | succ k =>
+      rcases List.mem_cons.1 h with rfl | h
+      · exact Or.inl (by simp [List.eraseIdx])
+      · rcases ih k x h with h' | h'
+        · exact Or.inl (by simp [List.eraseIdx, h'])
+        · exact Or.inr (by simpa using h')
+
+/-- the identity of a nil result-object field of a singleton registration enters the table as
+constructed-without-value -/
+theorem markAbsent_singleton (P : Ident → Prop) (st : State) (s : Nat) (sibs0 : List Desc) (nil? : Option Nat)
+    (h : ∀ d ∈ sibs0, d.life = .singleton ∧ P d.ident) :
+    SingStore P st (markAbsent st s sibs0 nil?) ∧
+    ∀ k dk, nil? = some k → sibs0[k]? = some dk → (lookup (markAbsent st s sibs0 nil?).singletons dk.ident).isSome := by
+  unfold markAbsent
+  split
+  next k =>
+    split
+    next dk hk =>
+      obtain ⟨h1, h1s⟩ := shareInstance_singleton P st s dk dk.ident .absent (h dk (List.mem_of_getElem? hk)).1
+        (h dk (List.mem_of_getElem? hk)).2
+      refine ⟨h1, ?_⟩
+      intro k' dk' hk' hdk'
+      injection hk' with hk'; subst hk'
+      rw [hk] at hdk'; injection hdk' with hdk'; subst hdk'
+      exact h1s
+    next hnone =>
+      refine ⟨SingStore.refl P st, ?_⟩
+      intro k' dk' hk' hdk'
+      injection hk' with hk'; subst hk'
+      rw [hnone] at hdk'; cases hdk'
+  · exact ⟨SingStore.refl P st, fun k dk hk => by cases hk⟩
+
 /-- registration structure: descriptors sharing a constructor are listed as siblings of each other;
 a non-empty sibling list contains its owner; a void constructor registers one descriptor -/
 structure RegWF (descs : List Desc) : Prop where
@@ -188,11 +231,10 @@ structure CreateSing (st st' : State) (d : Desc) (res : Except Err Val) : Prop w
   grows : Grows st.singletons st'.singletons
   only : OnlyNew (fun k => ∃ d' ∈ st.descs, d'.ctor = d.ctor ∧ d'.ident = k) st.singletons st'.singletons
   count : ∃ (nested : List Event) (fired : Bool), (∀ e ∈ nested, EventNonSingleton st.descs e) ∧
-      (fired = true → ∃ v, res = .ok v) ∧
       (fired = false → OnlyNew (fun k => (∃ v, d.kind = .inst v) ∧ ∃ d' ∈ st.descs, d'.ctor = d.ctor ∧ d'.ident = k)
         st.singletons st'.singletons) ∧
       (∀ c, ctorCount st'.log c = ctorCount st.log c + ctorCount nested c + (if fired = true ∧ d.ctor = c then 1 else 0)) ∧
-      ((∃ v, res = .ok v) → (lookup st'.singletons d.ident).isSome ∧
+      ((fired = true ∨ ∃ v, res = .ok v) →
         ((∃ v, d.kind = .inst v) ∨ fired = true) ∧
         ∀ d' ∈ st.descs, d'.ctor = d.ctor → (lookup st'.singletons d'.ident).isSome)
 
@@ -202,11 +244,7 @@ theorem findDesc_mem' {descs : List Desc} {id : Nat} {d : Desc} (h : findDesc de
 theorem okOr_ok {α} (r : Except Err Unit) (v : α) (h : r = .ok ()) : okOr r v = .ok v := by
   subst h; rfl
 
-/-- hypothesis of the Build theorems: constructors fill every field of their result objects
-(with a nil field Build of a singleton registration fails: repaired defect D15) -/
-def NoNilOutputs (beh : Beh) : Prop := ∀ c n, beh.nilField c n = none
-
-theorem createInstance_singleton (beh : Beh) (hnil : NoNilOutputs beh) (f : Nat) (st : State) (s : Nat) (d : Desc) (wf : WF st.descs)
+theorem createInstance_singleton (beh : Beh) (f : Nat) (st : State) (s : Nat) (d : Desc) (wf : WF st.descs)
     (rw' : RegWF st.descs) (hd : d ∈ st.descs) (hl : d.life = .singleton) :
     CreateSing st (createInstance beh (f + 1) st s d).1 d (createInstance beh (f + 1) st s d).2 := by
   unfold createInstance
@@ -232,11 +270,11 @@ theorem createInstance_singleton (beh : Beh) (hnil : NoNilOutputs beh) (f : Nat)
     obtain ⟨h2', _⟩ := shareAll_singleton
       (fun k => (∃ v, d.kind = .inst v) ∧ ∃ d' ∈ st.descs, d'.ctor = d.ctor ∧ d'.ident = k) s d.id
       (.inst v) (d.sibs.filterMap (findDesc st.descs)) (setInstance st s d d.ident (.inst v)).1 hsibQ
-    refine ⟨h2.descs.trans h1.descs, h1.grows.trans h2.grows, h1.only.trans h2.only, [], false, by simp, by simp,
+    refine ⟨h2.descs.trans h1.descs, h1.grows.trans h2.grows, h1.only.trans h2.only, [], false, by simp,
       fun _ => h1'.only.trans h2'.only, ?_, ?_⟩
     · intro c; simp [h2.log, h1.log]
     · intro _
-      refine ⟨h2.grows _ h1s, Or.inl ⟨v, hk⟩, ?_⟩
+      refine ⟨Or.inl ⟨v, hk⟩, ?_⟩
       intro d' hd' hc
       rcases rw'.sameCtor d hd d' hd' hc with h | h
       · subst h; exact h2.grows _ h1s
@@ -282,19 +320,23 @@ theorem createInstance_singleton (beh : Beh) (hnil : NoNilOutputs beh) (f : Nat)
       rw [hsing]; exact OnlyNew.refl _ _
     split
     · -- argument building failed
-      refine ⟨hdescs, hgrow0, honly0, nested, false, hnested, by simp, fun _ => by rw [hsing]; exact OnlyNew.refl _ _, ?_, ?_⟩
+      refine ⟨hdescs, hgrow0, honly0, nested, false, hnested, fun _ => by rw [hsing]; exact OnlyNew.refl _ _, ?_, ?_⟩
       · intro c; rw [hlog, ctorCount_append]; simp
-      · rintro ⟨v, hv⟩; cases hv
+      · rintro (h | ⟨v, hv⟩)
+        · cases h
+        · cases hv
     next args _ =>
       have hfailcase : ∀ (how : Outcome) (e : Err),
           CreateSing st (logEv (bumpInv ra.1 d.ctor) (.ctorFail d.id d.ctor ((bumpInv ra.1 d.ctor).invs d.ctor) s how)) d (.error e) := by
         intro how e
-        refine ⟨hdescs, hgrow0, honly0, nested, false, hnested, by simp,
+        refine ⟨hdescs, hgrow0, honly0, nested, false, hnested,
           fun _ => by show OnlyNew _ st.singletons ra.1.singletons; rw [hsing]; exact OnlyNew.refl _ _, ?_, ?_⟩
         · intro c
           show ctorCount (ra.1.log ++ [_]) c = _
           rw [hlog, ctorCount_append, ctorCount_append, ctorCount_ctorFail]; simp
-        · rintro ⟨v, hv⟩; cases hv
+        · rintro (h | ⟨v, hv⟩)
+          · cases h
+          · cases hv
       have hcnt : ∀ (lg : List Event) (ev : Event) (c : Nat), lg = ra.1.log ++ [ev] →
           (∃ inv sc a o, ev = .ctor d.id d.ctor inv sc a o) →
           ctorCount lg c = ctorCount st.log c + ctorCount nested c + (if true = true ∧ d.ctor = c then 1 else 0) := by
@@ -310,52 +352,70 @@ theorem createInstance_singleton (beh : Beh) (hnil : NoNilOutputs beh) (f : Nat)
           obtain ⟨h1, h1s, h1ok⟩ := setInstance_singleton (fun k => ∃ d' ∈ st.descs, d'.ctor = d.ctor ∧ d'.ident = k)
             (logEv (bumpInv ra.1 d.ctor) (.ctor d.id d.ctor ((bumpInv ra.1 d.ctor).invs d.ctor) s args [])) s d d.ident .unit hl hPd
           refine ⟨h1.descs.trans hdescs, hgrow0.trans h1.grows, honly0.trans h1.only, nested, true, hnested,
-            fun _ => ⟨.unit, by rw [h1ok]; rfl⟩, by simp, ?_, ?_⟩
+            by simp, ?_, ?_⟩
           · intro c; exact hcnt _ _ c (by rw [h1.log]; rfl) ⟨_, _, _, _, rfl⟩
           · intro _
-            refine ⟨h1s, Or.inr rfl, ?_⟩
+            refine ⟨Or.inr rfl, ?_⟩
             intro d' hd' hc
             rcases hsame d' hd' hc with h | h
             · subst h; exact h1s
             · rw [rw'.voidAlone d hd hvoid] at h; simp at h
         next hmulti =>
-          -- multi: one value per sibling
-          simp only [hnil d.ctor, markAbsent_none]
-          generalize hsibs' : (if (d.sibs.filterMap (findDesc (bumpInv ra.1 d.ctor).descs)).isEmpty then [d]
-            else d.sibs.filterMap (findDesc (bumpInv ra.1 d.ctor).descs)) = sibs'
-          have hs'life : ∀ sd ∈ sibs', sd.life = .singleton ∧
+          -- multi: one value per sibling; a nil field's identity is stored as constructed-without-value
+          have h0life : ∀ sd ∈ (if (d.sibs.filterMap (findDesc (bumpInv ra.1 d.ctor).descs)).isEmpty then [d]
+              else d.sibs.filterMap (findDesc (bumpInv ra.1 d.ctor).descs)), sd.life = .singleton ∧
               (fun k => ∃ d' ∈ st.descs, d'.ctor = d.ctor ∧ d'.ident = k) sd.ident := by
-            rw [← hsibs']; split
+            split
             · intro sd hsd; simp at hsd; subst hsd; exact ⟨hl, hPd⟩
             · exact hsiblife
-          have hdin : d ∈ sibs' := by
-            rw [← hsibs']
-            split
-            · simp
-            next hne =>
-              rcases hself with h | h
-              · rw [h] at hne; simp at hne
-              · exact h
-          obtain ⟨h1, h1ok, h1s⟩ := storeOuts_singleton (fun k => ∃ d' ∈ st.descs, d'.ctor = d.ctor ∧ d'.ident = k) s sibs' (allocOuts (bumpInv ra.1 d.ctor).next sibs'.length)
-            (logEv (alloc (bumpInv ra.1 d.ctor) sibs'.length d.ctor ((bumpInv ra.1 d.ctor).invs d.ctor))
-              (.ctor d.id d.ctor ((bumpInv ra.1 d.ctor).invs d.ctor) s args (allocOuts (bumpInv ra.1 d.ctor).next sibs'.length)))
-            hs'life (by simp [allocOuts])
-          have hcont : (sibs'.map (·.id)).contains d.id = true := by
-            simp only [List.contains_eq_mem, List.mem_map, decide_eq_true_eq]
-            exact ⟨d, hdin, rfl⟩
-          refine ⟨h1.descs.trans hdescs, hgrow0.trans h1.grows, honly0.trans h1.only, nested, true, hnested,
-            fun _ => ⟨_, by simp only [hcont, ↓reduceIte, h1ok]; rfl⟩, by simp, ?_, ?_⟩
-          · intro c; exact hcnt _ _ c (by rw [h1.log]; rfl) ⟨_, _, _, _, rfl⟩
-          · intro _
-            refine ⟨h1s d hdin, Or.inr rfl, ?_⟩
+          have h0all : ∀ d' ∈ st.descs, d'.ctor = d.ctor →
+              d' ∈ (if (d.sibs.filterMap (findDesc (bumpInv ra.1 d.ctor).descs)).isEmpty then [d]
+                else d.sibs.filterMap (findDesc (bumpInv ra.1 d.ctor).descs)) := by
             intro d' hd' hc
             rcases hsame d' hd' hc with h | h
-            · subst h; exact h1s d' hdin
-            · apply h1s d'
-              rw [← hsibs']
+            · subst h
               split
+              · simp
+              next hne =>
+                rcases hself with h | h
+                · rw [h] at hne; simp at hne
+                · exact h
+            · split
               next he => rw [List.isEmpty_iff.1 he] at h; simp at h
               · exact h
+          have hmultiB : ∀ (sibs' sibs0 : List Desc) (nil? : Option Nat) (res : Except Err Val),
+              (∀ sd ∈ sibs', sd.life = .singleton ∧ (fun k => ∃ d' ∈ st.descs, d'.ctor = d.ctor ∧ d'.ident = k) sd.ident) →
+              (∀ sd ∈ sibs0, sd.life = .singleton ∧ (fun k => ∃ d' ∈ st.descs, d'.ctor = d.ctor ∧ d'.ident = k) sd.ident) →
+              (∀ d' ∈ sibs0, d' ∈ sibs' ∨ ∃ k, nil? = some k ∧ sibs0[k]? = some d') →
+              (∀ d' ∈ st.descs, d'.ctor = d.ctor → d' ∈ sibs0) →
+              CreateSing st (markAbsent (storeOuts
+                (logEv (alloc (bumpInv ra.1 d.ctor) sibs'.length d.ctor ((bumpInv ra.1 d.ctor).invs d.ctor))
+                  (.ctor d.id d.ctor ((bumpInv ra.1 d.ctor).invs d.ctor) s args (allocOuts (bumpInv ra.1 d.ctor).next sibs'.length)))
+                s sibs' (allocOuts (bumpInv ra.1 d.ctor).next sibs'.length)).1 s sibs0 nil?) d res := by
+            intro sibs' sibs0 nil? res hs'life hs0life hcover hall
+            obtain ⟨h1, _, h1s⟩ := storeOuts_singleton (fun k => ∃ d' ∈ st.descs, d'.ctor = d.ctor ∧ d'.ident = k) s sibs'
+              (allocOuts (bumpInv ra.1 d.ctor).next sibs'.length)
+              (logEv (alloc (bumpInv ra.1 d.ctor) sibs'.length d.ctor ((bumpInv ra.1 d.ctor).invs d.ctor))
+                (.ctor d.id d.ctor ((bumpInv ra.1 d.ctor).invs d.ctor) s args (allocOuts (bumpInv ra.1 d.ctor).next sibs'.length)))
+              hs'life (by simp [allocOuts])
+            obtain ⟨h2, h2s⟩ := markAbsent_singleton (fun k => ∃ d' ∈ st.descs, d'.ctor = d.ctor ∧ d'.ident = k) _ s sibs0 nil? hs0life
+            refine ⟨(h2.descs.trans h1.descs).trans hdescs, (hgrow0.trans h1.grows).trans h2.grows,
+              (honly0.trans h1.only).trans h2.only, nested, true, hnested, by simp, ?_, ?_⟩
+            · intro c; exact hcnt _ _ c (by rw [h2.log, h1.log]; rfl) ⟨_, _, _, _, rfl⟩
+            · intro _
+              refine ⟨Or.inr rfl, ?_⟩
+              intro d' hd' hc
+              have hin0 := hall d' hd' hc
+              rcases hcover d' hin0 with hin | ⟨k, hk, hget⟩
+              · exact h2.grows _ (h1s d' hin)
+              · exact h2s k d' hk hget
+          generalize (if (d.sibs.filterMap (findDesc (bumpInv ra.1 d.ctor).descs)).isEmpty then [d]
+              else d.sibs.filterMap (findDesc (bumpInv ra.1 d.ctor).descs)) = sibs0 at h0life h0all ⊢
+          cases beh.nilField d.ctor ((bumpInv ra.1 d.ctor).invs d.ctor) with
+          | none => exact hmultiB sibs0 sibs0 none _ h0life h0life (fun d' h => Or.inl h) h0all
+          | some k =>
+            exact hmultiB (sibs0.eraseIdx k) sibs0 (some k) _ (fun sd hsd => h0life sd (List.mem_of_mem_eraseIdx hsd)) h0life
+              (fun d' h => (mem_eraseIdx_or_getElem? sibs0 k d' h).imp id (fun hg => ⟨k, rfl, hg⟩)) h0all
         next hplain1 hplain2 =>
           -- plain (aliases share the value)
           obtain ⟨h1, h1s, h1ok⟩ := setInstance_singleton (fun k => ∃ d' ∈ st.descs, d'.ctor = d.ctor ∧ d'.ident = k)
@@ -367,10 +427,10 @@ theorem createInstance_singleton (beh : Beh) (hnil : NoNilOutputs beh) (f : Nat)
             (.inst (bumpInv ra.1 d.ctor).next)
             (d.sibs.filterMap (findDesc (bumpInv ra.1 d.ctor).descs)) _ hsiblife
           refine ⟨(h2.descs.trans h1.descs).trans hdescs, (hgrow0.trans h1.grows).trans h2.grows,
-            (honly0.trans h1.only).trans h2.only, nested, true, hnested, fun _ => ⟨_, rfl⟩, by simp, ?_, ?_⟩
+            (honly0.trans h1.only).trans h2.only, nested, true, hnested, by simp, ?_, ?_⟩
           · intro c; exact hcnt _ _ c (by rw [h2.log, h1.log]; rfl) ⟨_, _, _, _, rfl⟩
           · intro _
-            refine ⟨h2.grows _ h1s, Or.inr rfl, ?_⟩
+            refine ⟨Or.inr rfl, ?_⟩
             intro d' hd' hc
             rcases hsame d' hd' hc with h | h
             · subst h; exact h2.grows _ h1s
@@ -406,14 +466,14 @@ structure BuildInv (descs : List Desc) (st : State) : Prop where
   counted : ∀ d ∈ descs, d.life = .singleton → (∀ v, d.kind ≠ .inst v) →
     (lookup st.singletons d.ident).isSome → ctorCount st.log d.ctor = 1
 
-theorem buildInv_step (beh : Beh) (hnil : NoNilOutputs beh) (descs : List Desc) (wf : WF descs) (rw' : RegWF descs) (st : State)
+theorem buildInv_step (beh : Beh) (descs : List Desc) (wf : WF descs) (rw' : RegWF descs) (st : State)
     (inv : BuildInv descs st) (d : Desc) (hd : d ∈ descs) (hl : d.life = .singleton)
     (hnone : (lookup st.singletons d.ident).isSome = false) (f s : Nat) :
     BuildInv descs (createInstance beh (f + 1) st s d).1 := by
   have hde := inv.descsEq
-  have cs := createInstance_singleton beh hnil f st s d (hde ▸ wf) (hde ▸ rw') (hde ▸ hd) hl
+  have cs := createInstance_singleton beh f st s d (hde ▸ wf) (hde ▸ rw') (hde ▸ hd) hl
   generalize createInstance beh (f + 1) st s d = r at cs
-  obtain ⟨nested, fired, hnested, hfok, hfalse, hcount, hres⟩ := cs.count
+  obtain ⟨nested, fired, hnested, hfalse, hcount, hres⟩ := cs.count
   have hsc := singCtor_of descs wf rw' d hd hl
   have hzero : ctorCount st.log d.ctor = 0 := by
     have h1 := inv.atMost d.ctor hsc
@@ -435,8 +495,7 @@ theorem buildInv_step (beh : Beh) (hnil : NoNilOutputs beh) (descs : List Desc) 
     rw [hcount c, hnest0 c hc] at h1
     by_cases hcc : fired = true ∧ d.ctor = c
     · obtain ⟨hf, hcc⟩ := hcc
-      obtain ⟨v, hv⟩ := hfok hf
-      exact (hres ⟨v, hv⟩).2.2 d' (by rw [hde]; exact hd') (by rw [hdc, hcc])
+      exact (hres (Or.inl hf)).2 d' (by rw [hde]; exact hd') (by rw [hdc, hcc])
     · simp only [hcc, ↓reduceIte, Nat.add_zero] at h1
       exact cs.grows _ (inv.stored c hc h1 d' hd' hdc)
   · intro d0 hd0 hl0 hk0 hs0
@@ -460,7 +519,7 @@ theorem buildInv_step (beh : Beh) (hnil : NoNilOutputs beh) (descs : List Desc) 
         subst this
         simp [hdc, hzero]
 
-theorem createSingletons_inv (beh : Beh) (hnil : NoNilOutputs beh) (descs : List Desc) (wf : WF descs) (rw' : RegWF descs) :
+theorem createSingletons_inv (beh : Beh) (descs : List Desc) (wf : WF descs) (rw' : RegWF descs) :
     ∀ (order : List Nat) (st : State), BuildInv descs st → BuildInv descs (createSingletons beh st order).1 := by
   intro order
   induction order with
@@ -483,7 +542,7 @@ theorem createSingletons_inv (beh : Beh) (hnil : NoNilOutputs beh) (descs : List
         next hn =>
           have hnone : (lookup st.singletons d.ident).isSome = false := by simpa using hn
           obtain ⟨f, hf⟩ : ∃ f, fuelFor st = f + 1 := ⟨fuelFor st - 1, by unfold fuelFor; omega⟩
-          have hstep := buildInv_step beh hnil descs wf rw' st inv d hd hl' hnone f rootScope
+          have hstep := buildInv_step beh descs wf rw' st inv d hd hl' hnone f rootScope
           rw [← hf] at hstep
           simp only []
           split
@@ -493,10 +552,10 @@ theorem createSingletons_inv (beh : Beh) (hnil : NoNilOutputs beh) (descs : List
 /-- AT MOST ONCE: whatever order the graph produced and whatever the constructors do, after the
 singleton-creation phase of Build no constructor of a singleton registration has succeeded twice;
 and a stored non-instance singleton identity means its constructor succeeded exactly once -/
-theorem build_singletons_once (beh : Beh) (hnil : NoNilOutputs beh) (descs : List Desc) (wf : WF descs) (rw' : RegWF descs) (order : List Nat)
+theorem build_singletons_once (beh : Beh) (descs : List Desc) (wf : WF descs) (rw' : RegWF descs) (order : List Nat)
     (st0 : State) (h0 : st0.descs = descs) (hlog : st0.log = []) (hs : st0.singletons = []) :
     BuildInv descs (createSingletons beh st0 order).1 := by
-  apply createSingletons_inv beh hnil descs wf rw' order st0
+  apply createSingletons_inv beh descs wf rw' order st0
   refine ⟨h0, ?_, ?_, ?_⟩
   · intro c _; rw [hlog]; simp
   · intro c _ h; rw [hlog] at h; simp at h
@@ -506,7 +565,7 @@ end Godi.Container
 
 namespace Godi.Container
 
-theorem createSingletons_ok_stored (beh : Beh) (hnil : NoNilOutputs beh) (descs : List Desc) (wf : WF descs) (rw' : RegWF descs) :
+theorem createSingletons_ok_stored (beh : Beh) (descs : List Desc) (wf : WF descs) (rw' : RegWF descs) :
     ∀ (order : List Nat) (st : State), BuildInv descs st → (createSingletons beh st order).2 = .ok () →
       Grows st.singletons (createSingletons beh st order).1.singletons ∧
       ∀ id ∈ order, ∀ d, findDesc descs id = some d → d.life = .singleton →
@@ -556,8 +615,8 @@ theorem createSingletons_ok_stored (beh : Beh) (hnil : NoNilOutputs beh) (descs 
         · simp only [hst, Bool.false_eq_true, ↓reduceIte] at hok ⊢
           have hnone : (lookup st.singletons d0.ident).isSome = false := by simpa using hst
           obtain ⟨f, hf⟩ : ∃ f, fuelFor st = f + 1 := ⟨fuelFor st - 1, by unfold fuelFor; omega⟩
-          have cs := createInstance_singleton beh hnil f st rootScope d0 (hde ▸ wf) (hde ▸ rw') (hde ▸ hd0) hl0'
-          have hstep := buildInv_step beh hnil descs wf rw' st inv d0 hd0 hl0' hnone f rootScope
+          have cs := createInstance_singleton beh f st rootScope d0 (hde ▸ wf) (hde ▸ rw') (hde ▸ hd0) hl0'
+          have hstep := buildInv_step beh descs wf rw' st inv d0 hd0 hl0' hnone f rootScope
           rw [← hf] at cs hstep
           generalize createInstance beh (fuelFor st) st rootScope d0 = r at cs hstep hok ⊢
           cases hr : r.2 with
@@ -565,8 +624,8 @@ theorem createSingletons_ok_stored (beh : Beh) (hnil : NoNilOutputs beh) (descs 
           | ok v =>
             simp only [hr] at hok ⊢
             obtain ⟨g, hs⟩ := ih r.1 hstep hok
-            obtain ⟨_, _, _, _, _, _, hres⟩ := cs.count
-            have hstored := (hres ⟨v, hr⟩).1
+            obtain ⟨_, _, _, _, _, hres⟩ := cs.count
+            have hstored := (hres (Or.inr ⟨v, hr⟩)).2 d0 (hde ▸ hd0) rfl
             refine ⟨cs.grows.trans g, ?_⟩
             intro id' hid' d hd' hl
             rcases List.mem_cons.1 hid' with rfl | h
